@@ -22,12 +22,12 @@ claimed = {
    note=TRUST + " PARTIAL: the summation itself (every label = origin + sum of the sizes of the statements before it) happens in pass1.TraverseAST, which is only used through a trusted frame contract; FindMinOutputSize/GetPrefixSize (prefix bytes) and the per-instruction pass-1 handlers are not under contract; the jump size estimate is known to disagree with emission (C04 findings).",
    design="DESIGN.md section 4, C03"),
  "C08": dict(
-   text="Deductive proof, with loop invariants for symbol lists of any length, over the real COFF symbol-table builder (generateSymbolEntries) and name encoder (convertNameToBytes): the table starts with the .file symbol and the three section symbols with exactly the PE/COFF field values and auxiliary-record contents (section length, zero relocation/line counts), every record announces exactly as many auxiliary records as follow it (so the record count is well defined), every user symbol is an external symbol of section 0 or 1, the number of entries is 4 + GLOBAL names + EXTERN names; a name of at most 8 bytes is stored inline NUL-padded, a longer one as four zero bytes plus an offset that - counted from the size field - lies inside the string table and points at that name followed by NUL, equal names share one offset (de-duplication map invariant proved as a data-structure invariant over all keys).",
-   note=TRUST + " PARTIAL: the file-level layout written by CoffFormat.Write (header counts and offsets, section table, placement of .text, the string-table size field) is not under contract yet, so 'an independent reader parses the file' is not decided; struc.PackWithOptions and sort.SliceStable are library code (the latter modelled: permutation + ordered by the comparator). At most 65536 names of at most 4096 bytes are assumed (A14).",
+   text="Deductive proof over the real COFF writer. CoffFormat.Write (layout arithmetic with loop invariants for any number of symbols): the symbol table starts at 20+3*40+len(code), the header's symbol count is the number of 18-byte records (main + auxiliary, recursive spec) actually appended, the buffer handed to the file is 140+len(code)+18*count+4+len(strings) bytes long, the string-table size field is len(strings)+4, header values (machine 0x14c, 3 sections, no optional header) and section header values (.text size = code size at offset 140, .data/.bss empty, names) are as specified, exactly one write on success. generateSymbolEntries / convertNameToBytes: fixed symbols and their auxiliary records, every record announces exactly the auxiliary records that follow, user symbols are externals of section 0 or 1, entry count, name fields inline or as a string-table offset that points at the name (data-structure invariant over all keys of the de-duplication map).",
+   note=TRUST + " PARTIAL: the bytes struc.PackWithOptions produces for a header or symbol record are not modelled (only their number: assumed library contract), so 'the header bytes on disk equal the header values' rests on struc; sort.SliceStable is modelled (permutation + ordered by the comparator). At most 65536 names of at most 4096 bytes (A14), code below 1 GiB (A17).",
    design="DESIGN.md section 4, C08/C09"),
  "C09": dict(
    text="Deductive proof over the real generateSymbolEntries/convertNameToBytes: after the stable sort, user symbols are ordered with undefined ones last and defined ones by value (for every comparator result, through a contract-level model of sort.SliceStable); the element that ends at position a came from declaration position p(a) (ghost permutation) and carries that name (inline if short), section 1 and the label's symbol-table value if the name is defined, section 0 and value 0 otherwise; long names are recoverable through the string table (convertNameToBytes contract: offset points at the name, the table only grows, remembered offsets stay valid); the [FILE] name is in the .file auxiliary record. frontend.Exec hands the same machine code to either writer (format clause).",
-   note=TRUST + " PARTIAL: '.text equals the flat binary' needs CoffFormat.Write (not under contract yet); 'exactly once' needs duplicate-free GLOBAL lists (pass 1, behind the trusted TraverseAST contract). Known finding: a [FILE] name longer than 18 bytes is cut off.",
+   note=TRUST + " The .text raw data is proved byte-identical to ctx.MachineCode (Write.final.text), the same slice the flat-binary path writes (Exec.ensures.raw). PARTIAL: 'exactly once' needs duplicate-free GLOBAL lists (pass 1, behind the trusted TraverseAST contract). Known finding: a [FILE] name longer than 18 bytes is cut off.",
    design="DESIGN.md section 4, C08/C09"),
  "C04": dict(
    text="Deductive proof over the real handleJcc/handleCALL/getOffsetSize: for every target, position, mode and all 31 jump kinds, the emitted bytes are exactly one branch instruction of the named class/condition (independent SDM decoder) whose sign-extended displacement equals target-(address+length) as integers, so a displacement that does not fit is never silently wrapped. Eleven input regions where the current tree violates this (rel8 lower boundary, rel16/rel32 forms without 66h, off-by-one length, truncation beyond 2^31) are recorded as known findings, excluded, and re-confirmed on every run.",
@@ -47,7 +47,7 @@ claimed = {
    design="DESIGN.md section 4, C18"),
  "C19": dict(
    text="Deductive proof of the control-flow part of the command-line contract on the real main and frontend.Exec: every process exit has code 0, 16, 17 or -1; fewer than two arguments exit 16; a source that cannot be stat'ed exits 17; an output file that cannot be opened exits 17 before anything is assembled; every failing exit prints a message; the destination is opened with O_CREATE|O_TRUNC; no exit path of Exec with a non-zero status has written the image, and the raw-binary path writes ctx.MachineCode exactly once. os.Exit, os.OpenFile, os.Stat, (*os.File).Write are modelled as ghost events (assumed library contracts).",
-   note=TRUST + " NOT decided: the Shift_JIS/UTF-8 clause (x/text decoders and the PEG parser are outside every contract); the WCOFF branch's single write is inside CoffFormat.Write, which is abstracted here with an inferred frame; pass1.TraverseAST is used through a trusted frame contract.",
+   note=TRUST + " NOT decided: the Shift_JIS/UTF-8 clause (x/text decoders and the PEG parser are outside every contract); the WCOFF branch's single write is CoffFormat.Write's clause once; pass1.TraverseAST is used through a trusted frame contract.",
    design="DESIGN.md section 4, C19"),
  "C06": dict(
    text="Deductive proof with loop invariants against recursive spec functions: MultExp.Eval's result, when it reduces to a number, is the left-to-right fold of * / % (64-bit, division truncating toward zero, remainder with the dividend's sign, zero divisors not reduced) over the values its children evaluate to; AddExp.Eval folds all constant terms joined by + and - from left to right into one number; ImmExp.Eval gives decimal literals their value, `$` the location counter and an EQU name the evaluation of its stored body. The fold loops are proved for operand lists of any length.",
